@@ -762,6 +762,38 @@ func (e *Engine) monitorExit(st *State, reach Term, m Term) {
 
 // lockCheck: accesses to guarded fields need the guarding lock (read: any mode, write: write mode).
 func (e *Engine) lockCheck(st *State, reach Term, a *Addr, write bool) {
+	if a.Kind == aGlobal && e.lockChecks && a.Global != nil && a.Global.Pkg != nil {
+		// package-level variable declared guarded_by a package-level mutex (type block "globals")
+		pkg := a.Global.Pkg.Pkg.Name()
+		tc := e.P.Contracts.Types[pkg+".globals"]
+		if tc == nil {
+			return
+		}
+		lockName, guarded := tc.Guarded[a.Global.Name()]
+		if !guarded {
+			return
+		}
+		mg, ok := a.Global.Pkg.Members[lockName].(*ssa.Global)
+		if !ok {
+			return
+		}
+		if e.Fn != nil && e.Fn.Name() == "init" && e.Fn.Synthetic != "" {
+			return // the package initialiser runs before any goroutine exists
+		}
+		mt := mg.Type().(*types.Pointer).Elem()
+		m := e.reify(st, reach, Val{T: mg.Type(), Addr: &Addr{Kind: aGlobal, Global: mg, Root: mt, T: mt}})
+		cur := Select(e.heldArr(st), m, SInt)
+		cond := Bin(SBool, ">=", cur, IntLit(1))
+		mode := "read"
+		if write {
+			cond = Eq(cur, IntLit(2))
+			mode = "write"
+		}
+		key := "lock.held@" + pkg + "." + a.Global.Name() + "." + mode
+		e.kindOrd[key]++
+		e.oblige("lock.held", fmt.Sprintf("%s#%d", key, e.kindOrd[key]), mode+" of package variable "+a.Global.Name()+" without holding "+lockName, reach, cond, nil)
+		return
+	}
 	if a.Kind != aHeap || !e.lockChecks {
 		return
 	}
